@@ -462,6 +462,7 @@ impl Pager {
         }
 
         if !self.bitmap.is_allocated(page_id) {
+            vio!(PageAlloc { path: self.path.clone(), page: page_id.as_u64(), owner: crate::verif::current_owner() });
             self.bitmap.set_allocated(page_id, true);
         }
 
